@@ -23,10 +23,14 @@ pub fn replay_probe<H: HB>(c: &Case, q: &AnyQ<H>, m: &Model, unordered: bool) ->
             let cfg = crate::props::base_cfg("C15", c.universe.len() as u32, &[0, 1, 2], A_CORE | A_CLEAR_DRAIN | A_ITER_MUT);
             return with_q!(q, x => crate::c15::round_trip(x, m, &cfg)).map(|_| ());
         }
-        "append-pair" | "eq-pair" => {
+        "append-pair" | "eq-pair" | "clone_from-pair" => {
             if let Some((d, r, ops)) = &c.aux {
                 let (b, _, _) = crate::post::rebuild_state::<H>(*d, r, ops, &c.universe)?;
-                return if name == "append-pair" { crate::post::append_pair(q, &b, &c.universe) } else { crate::post::eq_pair(q, &b) };
+                return match name.as_str() {
+                    "append-pair" => crate::post::append_pair(q, &b, &c.universe),
+                    "eq-pair" => crate::post::eq_pair(q, &b),
+                    _ => crate::post::clone_from_pair(q, &b, &c.universe),
+                };
             }
         }
         _ => {}
